@@ -112,6 +112,28 @@ theorem rsOf_skip (isRec : Bool) (spec : List Char) :
 theorem rsOf_isRecursive (isRec : Bool) (spec : List Char) : (rsOf isRec spec).isRecursive = Spec.isRf spec := by
   unfold rsOf; simp only []; split <;> simp [RSpec.parse_isRecursive]
 
+theorem RSpec.parse_eq (spec : List Char) :
+    RSpec.parse spec = ⟨Spec.isRf spec, Spec.isFf spec, false, Spec.specBody spec, none⟩ := by
+  have h1 := RSpec.parse_isRecursive spec
+  have h2 := RSpec.parse_isFlat spec
+  have h3 := RSpec.parse_hasRecursed spec
+  have h4 := RSpec.parse_formatSpec spec
+  have h5 := RSpec.parse_conversion spec
+  cases h : RSpec.parse spec
+  rw [h] at h1 h2 h3 h4 h5
+  simp only at h1 h2 h3 h4 h5
+  simp [h1, h2, h3, h4, h5]
+
+theorem rsOf_eq (isRec : Bool) (spec : List Char) :
+    rsOf isRec spec =
+      ⟨Spec.isRf spec, Spec.isFf spec, Spec.isRf spec || (isRec && !Spec.isFf spec), Spec.specBody spec, none⟩ := by
+  unfold rsOf
+  simp only [RSpec.parse_eq]
+  by_cases hc : (Spec.isRf spec || (isRec && !Spec.isFf spec)) = true
+  · simp [hc]
+  · have hc' : (Spec.isRf spec || (isRec && !Spec.isFf spec)) = false := by simpa using hc
+    simp [hc']
+
 /-! ## one field -/
 
 theorem rsOf_conversion (isRec : Bool) (spec : List Char) : (rsOf isRec spec).conversion = none := by
@@ -185,7 +207,8 @@ theorem fieldObj_plain (deep : Bool → Val → Except Exc Val) (ctx : Ctx) (isR
       (match getField ctx f.name with
        | .error e => .error e
        | .ok obj => .ok (obj, f.conv)) := by
-  simp only [Spec.fieldObj, h, hff, bind, Except.bind, pure, Except.pure]
+  simp only [Spec.fieldObj, h, bind, Except.bind, pure, Except.pure]
+  simp only [hff]
   cases getField ctx f.name <;> simp
 
 /-- the entry a part contributes to `result` -/
@@ -204,30 +227,21 @@ theorem ktField_good (fi : Bool → Val → Except Exc Val) (ctx : Ctx) (isRec :
        | .ok en => .ok (en, auto)) := by
   unfold ktField entryOf
   rw [autoNumber_named _ _ h.named]
-  simp only []
+  simp only [rsOf_eq]
   by_cases hc : (Spec.isRf f.spec || (isRec && !Spec.isFf f.spec)) = true
-  · rw [fieldObj_rec _ _ _ _ hc, rsOf_of_cond _ _ hc]
+  · rw [fieldObj_rec _ _ _ _ hc]
     cases hg : getField ctx f.name with
     | error e => rfl
     | ok obj =>
       simp only []
       rw [vfmt_plain 1 ctx f.spec auto h.spec]
-      simp only [RSpec.parse_isRecursive, RSpec.parse_isFlat, hc, if_true]
+      simp only [RSpec.parse_eq, hc, if_true]
       cases hfi : fi true obj with
       | error e => rfl
       | ok o =>
         simp only [Bool.true_or, if_true]
-        cases hcv : convertField o f.conv with
-        | error e => rfl
-        | ok o' =>
-          simp only []
-          have := RSpec.parse_conversion f.spec
-          cases hp : RSpec.parse f.spec
-          rw [hp] at this
-          simp only at this
-          simp [this]
+        cases hcv : convertField o f.conv <;> simp [hcv]
   · have hc' : (Spec.isRf f.spec || (isRec && !Spec.isFf f.spec)) = false := by simpa using hc
-    rw [rsOf_of_not_cond _ _ hc']
     by_cases hff : Spec.isFf f.spec = true
     · rw [fieldObj_ff _ _ _ _ hff]
       cases hg : getField ctx f.name with
@@ -235,17 +249,9 @@ theorem ktField_good (fi : Bool → Val → Except Exc Val) (ctx : Ctx) (isRec :
       | ok obj =>
         simp only []
         rw [vfmt_plain 1 ctx f.spec auto h.spec]
-        simp only [RSpec.parse_isRecursive, RSpec.parse_isFlat, hc', Bool.false_eq_true, if_false,
-          RSpec.parse_hasRecursed, hff, Bool.or_true, if_true]
-        cases hcv : convertField obj f.conv with
-        | error e => rfl
-        | ok o' =>
-          simp only []
-          have := RSpec.parse_conversion f.spec
-          cases hp : RSpec.parse f.spec
-          rw [hp] at this
-          simp only at this
-          simp [this]
+        simp only [RSpec.parse_eq, hc', Bool.false_eq_true, if_false]
+        simp only [hff, Bool.or_true, if_true]
+        cases hcv : convertField obj f.conv <;> simp [hcv, hff]
     · have hff' : Spec.isFf f.spec = false := by simpa using hff
       rw [fieldObj_plain _ _ _ _ hc' hff']
       cases hg : getField ctx f.name with
@@ -253,8 +259,8 @@ theorem ktField_good (fi : Bool → Val → Except Exc Val) (ctx : Ctx) (isRec :
       | ok obj =>
         simp only []
         rw [vfmt_plain 1 ctx f.spec auto h.spec]
-        simp only [RSpec.parse_isRecursive, RSpec.parse_isFlat, hc', Bool.false_eq_true, if_false,
-          RSpec.parse_hasRecursed, hff', Bool.or_false]
+        simp only [RSpec.parse_eq, hc', Bool.false_eq_true, if_false]
+        simp only [hff', Bool.or_false, Bool.false_eq_true, if_false]
 
 /-! ## the loop -/
 
